@@ -243,7 +243,13 @@ def run(ctx):
         ctx.violation(f)
         return
 
-    st = ctx.stats
+    f = core.run_random(ctx, random_shard, 4000, 40000)
+    if f is not None:
+        ctx.violation(f)
+
+
+def random_shard(st, shard, nshards, payload):
+    from hypothesis import strategies as hs
 
     @hs.composite
     def cases(draw):
@@ -277,9 +283,9 @@ def run(ctx):
             return check_missing({'e': inp['e'], 'args': [x for x in inp['args'] if x != v]})
         return None
 
-    f = core.run_hypothesis(ctx, cases(), body, ctx.pick(1500, 30000))
+    f = core.hyp_run(payload['seed'] * 1000 + shard, cases(), body, payload['n'])
     if f is not None:
-        ctx.violation(f)
+        st.failure = f
         return
 
     # non-Boolean corpus, generated around valid sub-expressions
@@ -298,6 +304,6 @@ def run(ctx):
             st.sample(inp, cls='nonbool-%d' % (k % len(texts) // 12))
         return check_nonbool(inp)
 
-    f = core.run_hypothesis(ctx, sub, body2, ctx.pick(1200, 12000), seed_offset=1)
+    f = core.hyp_run(payload['seed'] * 1000 + 500 + shard, sub, body2, max(1, (payload['n'] * 4) // 5))
     if f is not None:
-        ctx.violation(f)
+        st.failure = f
